@@ -195,7 +195,7 @@ pub struct HistOpts {
 }
 
 #[derive(Default, Clone, Debug)]
-pub struct GenStats { pub dup: u64, pub spurious: u64, pub drop: u64, pub resets: u64, pub unseen: u64, pub intent_steps: u64, pub biased: u64 }
+pub struct GenStats { pub renamed: u64, pub dup: u64, pub spurious: u64, pub drop: u64, pub resets: u64, pub unseen: u64, pub intent_steps: u64, pub biased: u64 }
 
 struct Intent { mapping: usize, next: usize, releasing: bool }
 
